@@ -57,6 +57,9 @@ func raceFiles(v int) map[string]string {
 		"/edit.jet":  edit,
 		"/deep.jet":  `{{ .In.A }}/{{ .In.B }}/{{ .Name }}/{{ len(.In.C) }}`,
 		"/incl2.jet": `{{include "/edit.jet"}}|{{include "/inc.jet" 5}}`,
+		// a function called by the template adds a global while the execution is running (and so may any
+		// other goroutine): the execution goes on and sees it
+		"/addg.jet":  `{{ addg("gfromfn") }}[{{ isset(gfromfn) }}]{{ addg("gv2") }}{{ gv2 }}`,
 		"/keep.jet":  `{{w := "none"}}{{u := 0}}{{range k, v := .M}}{{if v == .A}}{{w = k}}{{u = v}}{{end}}{{end}}{{.A}}:[{{w}}={{u}}]{{include "/inc.jet" 1}}{{range k2, v2 := .M}}{{end}}{{range .C}}{{.}};{{end}}{{range .M}}{{end}}[{{w}}={{u}}]`,
 		"/rng.jet":   `{{range .Z}}x{{else}}e{{end}}{{range i, x := .C}}{{range .C}}{{.}}{{end}};{{range .Z}}{{else}}{{range k, v := .M}}{{k}}{{v}}{{end}}{{end}}{{end}}{{range .M}}{{.}}{{else}}E{{end}}`,
 	}
@@ -85,6 +88,10 @@ func newRaceSet(files map[string]string, dev bool) (*jet.Set, *jet.InMemLoader) 
 	set := jet.NewSet(ld, opts...)
 	set.AddGlobal("gv", "g0")
 	set.AddGlobalFunc("gfn", func(a jet.Arguments) reflect.Value { return reflect.ValueOf(a.Get(0).Float() * 2) })
+	set.AddGlobalFunc("addg", func(a jet.Arguments) reflect.Value {
+		set.AddGlobal(a.Get(0).String(), 1)
+		return reflect.ValueOf("")
+	})
 	return set, ld
 }
 
@@ -107,7 +114,7 @@ func init() {
 		ng := atoi(cmd.Xs[2].A)
 		nops := atoi(cmd.Xs[3].A)
 		dev := cmd.Xs[4].A == "true"
-		names := []string{"/page.jet", "/main.jet", "/glob.jet", "/edit.jet", "/deep.jet", "/incl2.jet", "/base.jet", "/rng.jet", "/rng.jet",
+		names := []string{"/addg.jet", "/page.jet", "/main.jet", "/glob.jet", "/edit.jet", "/deep.jet", "/incl2.jet", "/base.jet", "/rng.jet", "/rng.jet",
 			"/late0.jet", "/late1.jet", "/late2.jet", "/late3.jet", "/late4.jet", "/late5.jet", "/base.jet", "/page.jet"}
 		// serial expectations: every admissible version of the edited file and of the global
 		allowed := map[string]map[string]bool{}
